@@ -27,6 +27,8 @@ import XotModel.Driver.Fidx
 import XotModel.Driver.Fcreation
 import XotModel.Driver.Bytes
 import XotModel.Driver.ValidDoc
+import XotModel.Driver.Arena
+import XotModel.Driver.ArenaRefine
 
 open XotModel.Driver
 
@@ -49,6 +51,7 @@ def dispatch (st : DState) (line : String) : DState × String :=
   | "representable" :: rest => (st, (handleRepresentable st rest).getD "bad-request")
   | "sertokens" :: rest => (st, (handleSerTokens st rest).getD "bad-request")
   | "bytes" :: rest => (st, (handleBytes rest).getD "bad-request")
+  | "arena" :: rest => (st, ((handleArena rest).orElse (fun _ => handleArenaRefine rest)).getD "bad-request")
   | _ => (st, "bad-request")
 
 structure MState where
